@@ -5,6 +5,7 @@ import (
 	"context"
 	"encoding/json"
 	"fmt"
+	"os/exec"
 	"strings"
 	"time"
 
@@ -158,8 +159,40 @@ func c09Lib(c *Ctx, variant string) {
 			}
 		}))
 	}
-	// concurrent server-side senders on the GET stream
+	// concurrent server-side senders on the legacy stream (a third writer next to the event queue and keep-alive)
 	var sent []string
+	if variant == "legacy-sse" {
+		w.Reg.RegisterTool(mcp.NewTool("whoami"), func(ctx context.Context, req *mcp.CallToolRequest) (*mcp.CallToolResult, error) {
+			se, _ := mcp.GetSessionFromContext(ctx)
+			return &mcp.CallToolResult{Content: []mcp.Content{mcp.NewTextContent(se.GetID())}}, nil
+		})
+		wctx, wcancel := context.WithTimeout(context.Background(), time.Minute)
+		res, err := cl.API.CallTool(wctx, callToolReq("whoami", nil))
+		wcancel()
+		if err == nil {
+			sid := textOf(res)
+			nSenders := 1 + t.Draw(2)
+			for k := 0; k < nSenders; k++ {
+				n := 1 + t.Draw(5)
+				tasks = append(tasks, s.Go(fmt.Sprintf("sender%d", k), func() {
+					for i := 0; i < n; i++ {
+						nonce := c.Nonce("s")
+						if err := w.SSE.SendNotification(sid, "notifications/verif", map[string]interface{}{"nonce": nonce, "pad": payload("p", c09Sizes[c.T.Draw(4)])}); err == nil {
+							c.mu.Lock()
+							sent = append(sent, nonce)
+							c.mu.Unlock()
+						}
+						if c.T.Bool(30) {
+							s.Sleep(time.Duration(c.T.Pick(1, 29900, 30000)) * time.Millisecond)
+						} else {
+							s.Yield("sender#next")
+						}
+					}
+				}))
+			}
+		}
+	}
+	// concurrent server-side senders on the GET stream
 	if variant == "get-stream" {
 		sessions, _ := w.Srv.GetActiveSessions()
 		nSenders := 1 + t.Draw(3)
@@ -202,6 +235,11 @@ func c09Lib(c *Ctx, variant string) {
 	}
 	if len(problems) > 0 {
 		s.Violate("C09|frame-corrupt|"+variant, "%d framing problems on the wire, e.g. %s", len(problems), joinProblems(problems))
+	}
+	for _, e := range s.LibEvents() {
+		if strings.Contains(e, "concurrent use of http.ResponseWriter") {
+			s.Violate("C09|concurrent-writer-use|"+variant, "two writers were inside Write/Flush of one stream at once (frames tear in a real net/http server): %s", e)
+		}
 	}
 	// every answer that a handler produced appears in exactly one frame
 	all := make([]string, 0, len(frames))
@@ -290,7 +328,7 @@ func c09ClientStdin(c *Ctx) {
 			w.Write(append(mustJSON(map[string]interface{}{"jsonrpc": "2.0", "id": id, "result": result}), '\n'))
 		}
 	})
-	mcp.VerifAttachStdio(cl, toSrv.Writer(), fromSrv.Reader(), errp.Reader(), exited, func(n string, f func()) { s.GoLib(name+"/"+n, f) })
+	mcp.VerifAttachStdio(cl, toSrv.Writer(), fromSrv.Reader(), errp.Reader(), func(cmd *exec.Cmd) { s.RegisterProc(cmd, exited, func() error { return nil }) }, func(n string, f func()) { s.GoLib(name+"/"+n, f) })
 	ctx, cancel := context.WithTimeout(context.Background(), 2*time.Minute)
 	defer cancel()
 	if _, err := cl.Initialize(ctx, &mcp.InitializeRequest{}); err != nil {
